@@ -22,10 +22,10 @@ import (
 // C13 — the negotiated msize is never exceeded by either peer
 
 type msizeCase struct {
-	Msize    uint32 `json:"msize"`
-	FileSize uint64 `json:"file_size"`
-	NEntries int    `json:"n_entries"`
-	NameLen  int    `json:"name_len"`
+	Msize    uint32    `json:"msize"`
+	FileSize uint64    `json:"file_size"`
+	NEntries int       `json:"n_entries"`
+	NameLen  int       `json:"name_len"`
 	Ops      []msizeOp `json:"ops"`
 }
 
